@@ -48,6 +48,8 @@ type lcaInfo struct {
 type bufItem struct {
 	a, b   *types.Vote
 	height int64
+	deep   bool   // examine the item the pool forms from it (consensus.go)
+	tag    string // shape / arrival order / vote type
 }
 
 type hist struct {
@@ -76,6 +78,9 @@ type hist struct {
 	validSeen     []types.Evidence // genuine items generated so far (wire form)
 	committedList []types.Evidence
 	rejected      []types.Evidence // items the reference rejected (wire form)
+
+	deepSigs    map[string]string // signatures of pairs under examination -> tag
+	forceCommit []types.Evidence  // items formed from reported votes, to be committed next
 
 	log  []string
 	cur  string // the operation in progress (for witnesses)
@@ -219,6 +224,17 @@ func (h *hist) observe(op string, s11 int64, afterRestart bool) *obs {
 		o.items[k] = ev
 	}
 	if n := h.dbPendingCount(); n != len(o.set) {
+		if total, bad := h.scanPendingRecords(); len(bad) > 0 {
+			h.violation(keyUnlistable, fmt.Sprintf("after %s: %d of %d pending records cannot be decoded as evidence, PendingEvidence lists %d items, Size()=%d", op, len(bad), total, len(o.set), o.size),
+				map[string]interface{}{"undecodable_records": bad})
+			// what a restart makes of the same key space
+			if _, err := evidence.NewPool(h.evDB, h.ch.StateStore, h.ch.BlockStore); err != nil {
+				h.violation(keyRestartFails, fmt.Sprintf("the pool cannot be re-created on its own evidence DB: %v", firstErr(err)),
+					map[string]interface{}{"undecodable_records": bad})
+			}
+			h.dead = true // the pending set can no longer be observed; nothing further is judged in this history
+			return o
+		}
 		h.violation("pendingevidence-differs-from-store", fmt.Sprintf("after %s: PendingEvidence(unbounded) lists %d items, the pending key space holds %d (Size()=%d)", op, len(o.set), n, o.size), nil)
 	}
 	// Size() == |pending|, judged as a change of the difference so that one defect is reported where it happens
@@ -257,6 +273,12 @@ func (h *hist) observe(op string, s11 int64, afterRestart bool) *obs {
 			if why == misattributed {
 				key = misattributedKey
 			}
+			if d, is := ev.(*types.DuplicateVoteEvidence); is && d.VoteA != nil && d.VoteB != nil {
+				if tag, is := h.deepSigs[string(d.VoteA.Signature)+string(d.VoteB.Signature)]; is {
+					key = keyConsInvalid
+					why += " (item formed by the pool from reported votes, " + tag + ")"
+				}
+			}
 			h.violation(key, fmt.Sprintf("after %s an item that fails the reference predicate (%s) is pending", op, why),
 				map[string]interface{}{"evidence": evDesc(ev), "reason": why})
 		}
@@ -266,6 +288,9 @@ func (h *hist) observe(op string, s11 int64, afterRestart bool) *obs {
 
 // bounds: must ⊆ observed ⊆ may (by evidence hash).
 func (h *hist) bounds(op string, o *obs, must, may map[string]bool) {
+	if h.dead {
+		return // a new violation was just reported for this operation; its consequences are not news
+	}
 	var lost, extra []string
 	for k := range must {
 		if _, ok := o.set[k]; !ok {
@@ -825,10 +850,10 @@ func (h *hist) opReport() {
 	h.logf("report votes height=%d val=%X", height, short(a.ValidatorAddress))
 	h.bounds("reportconflictingvotes", o, cpSet(h.prev), cpSet(h.prev)) // not before its height is decided
 	h.adopt(o)
-	h.buffer = append(h.buffer, bufItem{a, b, height})
+	h.buffer = append(h.buffer, bufItem{a: a, b: b, height: height})
 	if h.r.Intn(6) == 0 { // consensus may see the same pair again
 		h.pool().ReportConflictingVotes(b, a)
-		h.buffer = append(h.buffer, bufItem{b, a, height})
+		h.buffer = append(h.buffer, bufItem{a: b, b: a, height: height})
 	}
 	h.c.Count("op/report", 1)
 }
@@ -838,8 +863,10 @@ func (h *hist) opRestart() {
 	h.cur = fmt.Sprintf("restart (NewPool on the same evidence DB) at height %d", h.ch.Height())
 	np, err := evidence.NewPool(h.evDB, h.ch.StateStore, h.ch.BlockStore)
 	if err != nil {
-		h.c.HarnessError("C11 hist %d: NewPool on restart: %v", h.idx, err)
-		h.dead = true
+		_, bad := h.scanPendingRecords()
+		h.violation(keyRestartFails, fmt.Sprintf("the pool cannot be re-created on its own evidence DB: %v", firstErr(err)),
+			map[string]interface{}{"undecodable_records": bad})
+		h.dead = true // no pool to go on with
 		return
 	}
 	h.px.p = np
@@ -1046,7 +1073,19 @@ func (h *hist) stepHeight() {
 	}
 	h.commitPlan(&plan)
 	label := "none"
+	var forced types.Evidence
+	for len(h.forceCommit) > 0 && forced == nil {
+		ev := h.forceCommit[0]
+		h.forceCommit = h.forceCommit[1:]
+		if _, pending := h.prev[hashKey(ev)]; pending && !h.expired(ev.Height()) {
+			forced = ev
+		}
+	}
 	switch c := h.r.Intn(20); {
+	case forced != nil:
+		// an item formed from reported votes is committed now and offered again afterwards
+		label = "consensus-reported"
+		plan.Evidence = []types.Evidence{forced}
 	case c < 8:
 	case c < 15:
 		label = "proposer"
@@ -1067,6 +1106,18 @@ func (h *hist) stepHeight() {
 	if !applied {
 		plan.Evidence = nil
 		h.applyBlock(plan, nil, "none")
+	}
+	if applied && forced != nil && !h.dead {
+		h.c.Count("consensus-pair/committed", 1)
+		if _, still := h.prev[hashKey(forced)]; still {
+			h.violation(keyConsRecommits, "an item formed from reported votes is still pending after the block that committed it", map[string]interface{}{"evidence": evDesc(forced)})
+		}
+		if !h.dead {
+			h.opAdd(forced, "consensus-reported-committed")
+		}
+		if !h.dead {
+			h.opCheck([]types.Evidence{forced}, "consensus-reported-committed")
+		}
 	}
 }
 
@@ -1255,10 +1306,16 @@ func (h *hist) applyBlock(plan chaingen.StepPlan, blk *types.Block, label string
 			must[k] = true
 		}
 	}
+	var jobs []deepJob
+	h.deepSigs = map[string]string{}
 	for _, b := range h.buffer {
 		r := h.ch.Hist[b.height]
 		if r == nil {
 			continue
+		}
+		if b.deep {
+			h.deepSigs[string(b.a.Signature)+string(b.b.Signature)] = b.tag
+			h.deepSigs[string(b.b.Signature)+string(b.a.Signature)] = b.tag
 		}
 		va, vb := orderVotes(b.a, b.b)
 		vals := r.StateBefore.Validators
@@ -1277,7 +1334,9 @@ func (h *hist) applyBlock(plan chaingen.StepPlan, blk *types.Block, label string
 			continue // committed before: must not come back
 		}
 		may[k] = true
-		if !h.expired(b.height) {
+		if b.deep {
+			jobs = append(jobs, deepJob{want: e, tag: b.tag}) // presence is judged there, under its own key
+		} else if !h.expired(b.height) {
 			must[k] = true
 		}
 		h.nBuffered++
@@ -1294,5 +1353,9 @@ func (h *hist) applyBlock(plan chaingen.StepPlan, blk *types.Block, label string
 	h.c.Count("evidence_committed", int64(len(list)))
 	h.bounds("update", o, must, may)
 	h.adopt(o)
+	for _, j := range jobs {
+		h.deepCheck(j)
+	}
+	h.deepSigs = nil
 	return true
 }
